@@ -224,7 +224,15 @@ fn run_cycles<G: Cyc>(env: &mut Env, g: &G, members: &[usize], ctx: &Ctx, rng: &
         }
 
         env.capture_start();
+        // "hostile_lrw": the answer to every process data datagram comes back with all bytes inverted
+        // (a device that writes where it has no business)
+        if get_bool(ctx.case, "hostile_lrw", false) {
+            env.seg.fault = Some(Box::new(|d: &simdev::simnet::DatagramInfo| {
+                if d.cmd == cmd::LRW { simdev::simnet::FaultAction::CorruptData } else { simdev::simnet::FaultAction::None }
+            }));
+        }
         let phase = env.run(g.cycle(md, ctx.variant == "sync"));
+        env.seg.fault = None;
         let frames = env.capture_take();
 
         for (i, o) in sds.iter_mut().enumerate() {
